@@ -425,19 +425,30 @@ func (r *Reader) Resolve(obj core.Object) (core.Object, error) {
 // ResolveDeep recursively resolves all indirect references in an object
 // Implements pages.ObjectResolver interface
 func (r *Reader) ResolveDeep(obj core.Object) (core.Object, error) {
-	return r.resolveDeep(obj, make(map[int]bool))
+	return r.resolveDeep(obj, make(map[int]bool), make(map[int]core.Object))
 }
 
 // resolveDeep is ResolveDeep with the set of object numbers on the current
 // resolution path, so that a reference cycle (/Parent links, self references)
-// is reported as an error instead of recursing forever.
-func (r *Reader) resolveDeep(obj core.Object, onPath map[int]bool) (core.Object, error) {
+// is reported as an error instead of recursing forever, and with the objects
+// already resolved: an object that is referenced from several places is
+// resolved once, otherwise a graph whose every level names the next one twice
+// costs 2^depth work although it has no cycle.
+func (r *Reader) resolveDeep(obj core.Object, onPath map[int]bool, done map[int]core.Object) (result core.Object, err error) {
 	if ref, ok := obj.(core.IndirectRef); ok {
+		if v, ok := done[ref.Number]; ok {
+			return v, nil
+		}
 		if onPath[ref.Number] {
 			return nil, fmt.Errorf("reference cycle through object %d", ref.Number)
 		}
 		onPath[ref.Number] = true
-		defer delete(onPath, ref.Number)
+		defer func() {
+			delete(onPath, ref.Number)
+			if err == nil {
+				done[ref.Number] = result
+			}
+		}()
 	}
 
 	// First resolve if it's a reference
@@ -451,7 +462,7 @@ func (r *Reader) resolveDeep(obj core.Object, onPath map[int]bool) (core.Object,
 	case core.Array:
 		result := make(core.Array, len(v))
 		for i, elem := range v {
-			resolvedElem, err := r.resolveDeep(elem, onPath)
+			resolvedElem, err := r.resolveDeep(elem, onPath, done)
 			if err != nil {
 				return nil, err
 			}
@@ -462,7 +473,7 @@ func (r *Reader) resolveDeep(obj core.Object, onPath map[int]bool) (core.Object,
 	case core.Dict:
 		result := make(core.Dict)
 		for key, val := range v {
-			resolvedVal, err := r.resolveDeep(val, onPath)
+			resolvedVal, err := r.resolveDeep(val, onPath, done)
 			if err != nil {
 				return nil, err
 			}
